@@ -134,9 +134,13 @@ pub fn gen_c03(rng: &Rng, tier: Tier) -> ReadScn {
 pub fn run_c03(scn: &ReadScn, st: &mut Stats) -> RunResult {
     let logs: Vec<RunLog> = scn.cfgs.iter().map(|c| drive(scn, c, &vec![])).collect();
     let mut h = 0u64;
+    let mut nt = false;
     for (c, l) in scn.cfgs.iter().zip(&logs) {
-        record_stats(scn, c, l, st);
+        nt |= record_stats(scn, c, l, st).is_some();
         h = vcore::mix(h, l.log_hash);
+    }
+    if nt {
+        st.set_insert("nontrivial", vcore::mix(h, scn.input.len() as u64));
     }
     st.count("step.configurations_compared", scn.cfgs.len() as u64);
     let mut v: Vec<Violation> = vec![];
@@ -240,10 +244,7 @@ impl Check for C03 {
         "sim-io"
     }
     fn budget(&self, tier: Tier) -> u64 {
-        match tier {
-            Tier::Quick => 150_000,
-            Tier::Thorough => 5_000_000,
-        }
+        crate::budget_for(self.id(), tier)
     }
     fn generate(&self, rng: &Rng, tier: Tier, _idx: u64) -> Value {
         serde_json::to_value(gen_c03(rng, tier)).unwrap()
@@ -342,7 +343,9 @@ pub fn run_c14(scn: &C14Scn, st: &mut Stats) -> RunResult {
     let targets = seek_targets(&m);
     let cfg0 = &base.cfgs[0];
     let clean = drive(base, cfg0, &targets);
-    record_stats(base, cfg0, &clean, st);
+    if let Some(h) = record_stats(base, cfg0, &clean, st) {
+        st.set_insert("nontrivial", h);
+    }
     let mut hash = clean.log_hash;
     let mut v: Vec<Violation> = vec![];
     let jo = JudgeOpts { prop: "C14", check_pos: false, mon_prefixes: &[], check_msg: false, only: Some(C14_ONLY) };
@@ -449,10 +452,7 @@ impl Check for C14 {
         "fault_enumeration"
     }
     fn budget(&self, tier: Tier) -> u64 {
-        match tier {
-            Tier::Quick => 12_000,
-            Tier::Thorough => 400_000,
-        }
+        crate::budget_for(self.id(), tier)
     }
     fn generate(&self, rng: &Rng, tier: Tier, _idx: u64) -> Value {
         serde_json::to_value(gen_c14(rng, tier)).unwrap()
@@ -639,7 +639,9 @@ pub fn run_c09(scn: &C09Scn, st: &mut Stats) -> RunResult {
     let targets = seek_targets(&m);
     let cfg = &rs.cfgs[0];
     let log = drive(rs, cfg, &targets);
-    record_stats(rs, cfg, &log, st);
+    if let Some(h) = record_stats(rs, cfg, &log, st) {
+        st.set_insert("nontrivial", h);
+    }
     let jo = JudgeOpts { prop: "C09", check_pos: false, mon_prefixes: &[], check_msg: false, only: Some(C09_ONLY) };
     let (mut jv, cursors) = judge_with_cursors(&m, rs, &log, &jo);
     v.append(&mut jv);
@@ -719,10 +721,7 @@ impl Check for C09 {
         "sim-io"
     }
     fn budget(&self, tier: Tier) -> u64 {
-        match tier {
-            Tier::Quick => 200_000,
-            Tier::Thorough => 6_000_000,
-        }
+        crate::budget_for(self.id(), tier)
     }
     fn generate(&self, rng: &Rng, tier: Tier, _idx: u64) -> Value {
         serde_json::to_value(gen_c09(rng, tier)).unwrap()
@@ -901,13 +900,14 @@ pub fn run_c12(s: &C12Scn, st: &mut Stats) -> RunResult {
     let mut hash = 0u64;
     // (records, header line numbers, error) per rendering
     let mut results: Vec<(Vec<RecObs>, Vec<u64>, Option<String>)> = vec![];
+    let mut nt = false;
     for r in &s.renders {
         let input = render_c12(s, r);
         let n = s.recs.len();
         let ops = if s.sets { (0..n + 2).map(|_| Op::ReadSet(0)).collect() } else { ops_next_to_end(n) };
         let rs = ReadScn { fmt: s.fmt, input, cfgs: vec![r.cfg.clone()], ops, mon: Monitors::default(), profile: String::new() };
         let log = drive(&rs, &r.cfg, &vec![]);
-        record_stats(&rs, &r.cfg, &log, st);
+        nt |= record_stats(&rs, &r.cfg, &log, st).is_some();
         hash = vcore::mix(hash, log.log_hash);
         let mut recs = vec![];
         let mut lines = vec![];
@@ -959,6 +959,9 @@ pub fn run_c12(s: &C12Scn, st: &mut Stats) -> RunResult {
         }
     }
     st.count("step.renderings_compared", s.renders.len() as u64);
+    if nt {
+        st.set_insert("nontrivial", hash);
+    }
     if !v.is_empty() {
         for x in v.iter_mut() {
             x.features.insert(format!("fmt:{}", if s.fmt == Fmt::Fasta { "fasta" } else { "fastq" }));
@@ -975,10 +978,7 @@ impl Check for C12 {
         "sim-io"
     }
     fn budget(&self, tier: Tier) -> u64 {
-        match tier {
-            Tier::Quick => 100_000,
-            Tier::Thorough => 3_000_000,
-        }
+        crate::budget_for(self.id(), tier)
     }
     fn generate(&self, rng: &Rng, tier: Tier, _idx: u64) -> Value {
         serde_json::to_value(gen_c12(rng, tier)).unwrap()
